@@ -1820,10 +1820,9 @@ def _read_var_macro(ctx: ReaderContext) -> llist.PersistentList:
     char_next = ctx.reader.peek()
     if char_next == "":
         raise ctx.eof_error("Unexpected EOF in var form")
-    if char_next == "~":
-        s = _read_unquote(ctx)
-    else:
-        s = _read_sym(ctx)
+    s = _read_next_form(ctx, "var form")
+    if not isinstance(s, sym.Symbol) and not _is_unquote(s):
+        raise ctx.syntax_error(f"Expected a symbol in var form; got '{s}'")
     return llist.l(_VAR, s)
 
 
